@@ -28,6 +28,12 @@ theorem c05_ladder_balanced : allSigs.all (checkC05 mockProbe executeDef) = true
 /-- Probe: `_start_mocking; _stop_mocking` (also nested) leaves every borrowed global as found. -/
 theorem c05_probe_restores : mockProbe.stopRestores = true := by decide
 
+/-- The model has no notion of the thread the grader runs on (`_stop_mocking` consults the current thread for the
+    finish claim of a timed execution): the probe above, repeated with the caller on a plain threading.Thread, a pool
+    worker, a thread `threading` did not start and a Timer, measures the same as on the main thread and restores
+    everything there too. -/
+theorem c05_probe_thread_independent : mockProbeOnThread.all (fun p => p.2) = true := by decide
+
 theorem gen_checkC05 (sig : Sig) : checkC05 genCfg.probe genCfg.exec sig = true :=
   forall_sig_of_all c05_ladder_balanced sig
 
